@@ -288,9 +288,21 @@ func ruleBNameTest(w *World, r *Report) {
 		last := b.Instrs[len(b.Instrs)-1]
 		switch x := last.(type) {
 		case *ssa.If:
-			d := desc(x.Cond)
-			walk(b.Succs[0], b, append(append([]ntFact{}, facts...), ntFact{d, true}), depth+1)
-			walk(b.Succs[1], b, append(append([]ntFact{}, facts...), ntFact{d, false}), depth+1)
+			// conditions are described positively: `a != b` true is `a == b` false
+			cond, pos := x.Cond, true
+			for {
+				if u, ok := cond.(*ssa.UnOp); ok && u.Op == token.NOT {
+					cond, pos = u.X, !pos
+					continue
+				}
+				break
+			}
+			if bo, ok := cond.(*ssa.BinOp); ok && bo.Op == token.NEQ {
+				pos = !pos
+			}
+			d := desc(cond)
+			walk(b.Succs[0], b, append(append([]ntFact{}, facts...), ntFact{d, pos}), depth+1)
+			walk(b.Succs[1], b, append(append([]ntFact{}, facts...), ntFact{d, !pos}), depth+1)
 		case *ssa.Jump:
 			walk(b.Succs[0], b, facts, depth+1)
 		case *ssa.Return:
@@ -459,7 +471,8 @@ func (w *World) ntDescribe(pred *ssa.Function, v ssa.Value, all int64) string {
 	}
 	switch x := v.(type) {
 	case *ssa.BinOp:
-		if x.Op == token.EQL {
+		if x.Op == token.EQL || x.Op == token.NEQ {
+			// (an inequality is described by its equality; the caller flips the outcome)
 			a, b := side(x.X), side(x.Y)
 			if strings.HasPrefix(b, "step.") {
 				a, b = b, a
